@@ -530,6 +530,17 @@ def search_convex(ctx):
             g = g / max(float(np.linalg.norm(g)), 1e-300) * Delta * 10.0 ** rng.uniform(0.8, 2.2)
         A = rng.normal(size=(int(rng.integers(1, n + 2)), n))
         H = (A.T @ A) * 10.0 ** rng.uniform(-3, 2) if rng.random() < 0.8 else np.zeros((n, n))
+        if rng.random() < 0.3:
+            # late-iteration geometry: a SMALL radius, only the trust-region ball (plus a far-away box) as constraint, and a model
+            # whose unconstrained minimiser lies 0.5 .. 5 radii away — the trial points are then within ~1e-5 (absolute) of the
+            # ball, where an "already feasible within tolerance" shortcut in the projection would let them through unprojected
+            Delta = float(10.0 ** rng.uniform(-7, -3.5))
+            sH = float(10.0 ** rng.uniform(-1, 1))
+            H = sH * np.eye(n)
+            g = rng.normal(size=n)
+            g = g / max(float(np.linalg.norm(g)), 1e-300) * sH * Delta * float(10.0 ** rng.uniform(-0.3, 0.7))
+            P, names = [lambda x, lo=xopt - 1.0, hi=xopt + 1.0: np.minimum(np.maximum(x, lo), hi)], ["small-radius-far-box"]
+            st["sets"]["small-radius-far-box"] = st["sets"].get("small-radius-far-box", 0) + 1
         which = i % 3
         ctx.seen(("c13convex", i, which, n, tuple(names)))
         try:
@@ -543,7 +554,8 @@ def search_convex(ctx):
                 h = lambda x: lam * float(np.sum(np.abs(x)))
                 d = core.with_alarm(20, lambda: ctrsbox_sfista(xopt.copy(), g.copy(), H.copy(), P, Delta, h, lam * math.sqrt(n), soft_threshold(lam),
                                                                argsh=(), argsprox=(), func_tol=float(10.0 ** rng.uniform(-4, -1)) * Delta,
-                                                               max_iters=int(rng.integers(3, 120)))[0])
+                                                               max_iters=int(rng.integers(3, 120)),
+                                                               sfista_iters_scale=float(rng.choice([1.0, 2.0, 5.0])))[0])
                 name = "ctrsbox_sfista"
             else:
                 st["cgeom"] += 1
@@ -559,7 +571,9 @@ def search_convex(ctx):
         dn = float(np.linalg.norm(d))
         if np.isfinite(dn):
             st["max_norm_over_Delta"] = max(st["max_norm_over_Delta"], dn / Delta)
-        if not dn <= Delta * (1 + 1e-8):
+        # (the step is computed as projected point minus xopt: its rounding error is half an ulp of |xopt| per component, which
+        #  at radii of 1e-7 is more than 1e-8 relative — first version of the small-radius family: false alarm at seed 2)
+        if not dn <= Delta * (1 + 1e-8) + 4 * np.finfo(float).eps * math.sqrt(n) * float(np.max(np.abs(xopt)) + Delta):
             if dn != dn and name == "ctrsbox_pgd" and not np.any(H):
                 sig = "C13:ctrsbox_pgd:nan-step-zero-hessian"
                 what = ("ctrsbox_pgd returns d = NaN when H = 0 (trust_region.py:186 L = ||H||_2 = 0, :204 (1/L)*gy); minimal: "
